@@ -28,7 +28,7 @@ def validate(rep, trace_path, module, cfg, workdir, timeout=900, workers=1, env_
 
 
 def run_table(rep, pid, cmd, gen_args, module, cfg, classify, replay_in=None, sample_keys=None, distinct_key=None,
-              timeout=900):
+              timeout=900, tag_filter=None):
     """Generate (or recompute, for a replay) lines with harness subcommand `cmd`, validate with TLC, turn
     bad lines into known findings / violations.  classify(line, tags) -> (signature dict, text)."""
     wd = vlib.scratch_dir(pid.lower())
@@ -47,6 +47,10 @@ def run_table(rep, pid, cmd, gen_args, module, cfg, classify, replay_in=None, sa
         for l in sorted(bad):
             line = lines[l - 1]
             tags = sorted(set(bad[l]))
+            if tag_filter:
+                tags = [t for t in tags if tag_filter(t)]
+                if not tags:
+                    continue
             if all(t.startswith("drift_") for t in tags):
                 rep.drift.append("%s at line %d" % (",".join(tags), l))
                 continue
